@@ -16,7 +16,7 @@ func sortStrings(s []string) { sort.Strings(s) }
 // checkers print for that file.
 
 func (w *Worker) genHistory(r *simrt.Rand, index, maxLen int) []simapi.Visit {
-	names := w.corpus.Names
+	names := w.index.Names
 	n := 1 + r.Intn(maxLen)
 	if r.Intn(3) == 0 {
 		n = 2 + r.Intn(2) // most stale-state bugs need two or three visits
@@ -28,8 +28,7 @@ func (w *Worker) genHistory(r *simrt.Rand, index, maxLen int) []simapi.Visit {
 	}
 	for len(vs) < n {
 		p := pool[r.Intn(len(pool))]
-		cp := w.corpus.Pkgs[p]
-		files := cp.AllFiles()
+		files := w.index.AllFiles(p)
 		switch r.Intn(5) {
 		case 0: // reversed file order (the harness always visits negative before positive)
 			for i, j := 0, len(files)-1; i < j; i, j = i+1, j-1 {
@@ -143,9 +142,7 @@ func (w *Worker) runC03(rc *simapi.RunConfig) *simapi.RunResult {
 	}
 	v := &rc.Variants[0]
 	// calibrate the serial step count for change points / budget
-	if v.Sched != nil && (len(v.CPFrac) > 0 || v.Sched.StepBudget == 0) {
-		resolve(v, w.estimateSteps(wl, rc.Visits))
-	}
+	w.calibrate(rc, v, wl)
 	out := w.execCLI(rc.Args, rc.Visits, v, false)
 	if out.InitErr != "" {
 		res.Violations = append(res.Violations, simapi.Violation{Class: "init-error", Identity: "init-error", Detail: out.InitErr})
@@ -169,6 +166,29 @@ func (w *Worker) runC03(rc *simapi.RunConfig) *simapi.RunResult {
 	res.Digest = hashStrings(strings.Join(recordsText(out), ""), fmt.Sprint(out.Sched.Hash, out.Map.Hash, out.Sched.Steps))
 	return res
 }
+
+// calibrate resolves change-point fractions and the step budget of a variant.
+// The serial step count is measured only when fractions need it (or taken from
+// the table the plain build wrote); otherwise a fixed generous budget applies.
+func (w *Worker) calibrate(rc *simapi.RunConfig, v *simapi.Variant, wl *Workload) {
+	if v.Sched == nil {
+		return
+	}
+	if len(v.CPFrac) > 0 {
+		steps, ok := w.refTable.Steps[fmt.Sprint(rc.Index)]
+		if !ok || rc.Expect != nil {
+			steps = w.estimateSteps(wl, rc.Visits)
+		}
+		resolve(v, steps)
+	}
+	if v.Sched.StepBudget == 0 {
+		v.Sched.StepBudget = defaultBudget
+	}
+}
+
+// defaultBudget bounds a run whose serial step count was not measured: the
+// largest serial workload of the corpus takes about 4e5 steps.
+const defaultBudget = 40_000_000
 
 // estimateSteps gives the serial step count of a workload (cached per package
 // and selection size; used only to place change points and to set the budget).
